@@ -385,7 +385,7 @@ def stop_guarded(gw, budget=12.0):
     return stable or {"stop()": (("?", "?", 0),)}
 
 
-def run_real(kind, flavour, script, rt=0.4, answer=True, hold=0.0, host="127.0.0.1"):
+def run_real(kind, flavour, script, rt=0.4, answer=True, hold=0.0, host="127.0.0.1", neighbour=False):
     """One lifetime of a real gateway against a real (loopback / pty) device. Returns (events, meta)."""
     import serial
     import serial_asyncio
@@ -407,6 +407,7 @@ def run_real(kind, flavour, script, rt=0.4, answer=True, hold=0.0, host="127.0.0
     threading.excepthook = hook
     loop = None
     loop_thread = None
+    other = None
     D = 6 * rt + 4.0
     patches = []
     if flavour == "threaded":
@@ -445,6 +446,21 @@ def run_real(kind, flavour, script, rt=0.4, answer=True, hold=0.0, host="127.0.0
                     return cls(host, port=dev.port, protocol_version="2.2", reconnect_timeout=rt)
                 return cls(dev.link, protocol_version="2.2", reconnect_timeout=rt, timeout=0.2)
 
+            other = None
+            if neighbour and flavour == "threaded":
+                # another threaded gateway of the same process, of the other kind, whose device is not there: it keeps
+                # dialling for the whole lifetime of the gateway under test
+                if kind == "tcp":
+                    other = mgs.SerialGateway(os.path.join(tmp, "no-such-device"), protocol_version="2.2", reconnect_timeout=0.2, timeout=0.2)
+                else:
+                    probe = socket.socket()
+                    probe.bind(("127.0.0.1", 0))
+                    free_port = probe.getsockname()[1]
+                    probe.close()
+                    other = mgt.TCPGateway("127.0.0.1", port=free_port, protocol_version="2.2", reconnect_timeout=0.2)
+                other.start()
+                meta["neighbour"] = True
+                time.sleep(0.3)
             if flavour == "asyncio":
                 async def _b():
                     return build()
@@ -528,6 +544,11 @@ def run_real(kind, flavour, script, rt=0.4, answer=True, hold=0.0, host="127.0.0
             if flavour == "asyncio" and start_fut.done() and not start_fut.cancelled() and start_fut.exception() is not None:
                 meta["start_raised"] = repr(start_fut.exception())[:120]
     finally:
+        try:
+            if other is not None:
+                stop_guarded(other, budget=6.0)
+        except Exception:
+            pass
         threading.excepthook = old_hook
         try:
             dev.close()
@@ -567,6 +588,11 @@ def check_real(events, meta):
     if i_stopped is None:
         V.append((f"real:stop-did-not-return:{tag}", "stop() never returned"))
         return V
+    t_started = next((float(e[0]) for e in events if e[1] == "STARTED"), None)
+    t_stopping = next((float(e[0]) for e in events if e[1] == "STOPPING"), None)
+    if (t_started is not None and t_stopping is not None and t_stopping - t_started > D
+            and not any(e[1] == "CONNECT-BEGIN" for e in events[:i_stopping])):
+        V.append((f"real:never-dialled-after-start:{tag}", f"the gateway was started and ran for {t_stopping - t_started:.1f} s without a single connect attempt"))
     if len(made) != len(ok):
         V.append((f"real:made-count:{'more' if len(made) > len(ok) else 'fewer'}:{tag}", f"{len(ok)} connections established, on_conn_made called {len(made)} times"))
     if len(lost) != len(ok):
